@@ -227,7 +227,7 @@ CHECKS = {
                         "monitor on implementation histories; its safety skeleton is proved on the model"],
     },
     "C07": {
-        "extra_props": ["Props/C07_src.v"],
+        "extra_props": ["Props/C07_src.v", "Props/C07_ir.v"],
         "module": "p_c07",
         "gen_lemmas": ["throttled_spec", "admission_spec", "loop_wait_spec", "eval_throttle_raise", "block_ready_true"],
         "rule": "seeded random scenarios (count: static 0/1/2/3/None or a scripted callable changing over time, returning None or "
